@@ -332,25 +332,39 @@ Serve(r, t, q) ==
 Focus(r) == /\ focus = None /\ focus' = r
             /\ UNCHANGED <<firstRun, users, sessions, store, hist, clock, last>>
 
-\* Vector generation: one line per (state, route, target, method, spelling)
-\* carrying the verdict table over ctype x body x cookie x basic, one row
-\* <<ctype, body, cookie class, basic, dispatched to, site of the serving
-\* registration, admissible outcomes, violated requirements>> per request.  The
+\* Vector generation.  Serve looks at a route only through its fields other than
+\* the site and -- unless the pattern is one that the statement or the dispatch
+\* names (the public patterns, "/", subtree patterns) -- the pattern.  Routes
+\* that agree on everything else form a class; tables are computed once per
+\* class, for a representative, and carry the members of the class (the model
+\* checking run explores every route on its own; the orchestrator refuses to
+\* go on if the two runs disagree about violations).
+\* One line per (state, class, target, method, spelling) with the verdict table
+\* over ctype x body x cookie x basic, one row <<ctype, body, cookie class,
+\* basic, dispatched to, site of the serving registration, admissible outcomes,
+\* violated requirements>> per request ("$self" = the member itself).  The
 \* cookie is reported by class; the classes present depend on the state.
+Named(r)   == r.pat \in PublicPats \cup {"/"} \/ r.subtree
+Cls(r)     == [r EXCEPT !.site = "*", !.pat = IF Named(r) THEN r.pat ELSE "*"]
+Members(r) == {x \in Routes : Cls(x) = Cls(r)}
+Reps       == {CHOOSE x \in Members(r) : TRUE : r \in Routes}
+
 Table(r, t, m, sp) ==
     [x \in {y \in {<<ct, b, ck, ba>> : ct \in CTypes, b \in Bodies, ck \in Cookies, ba \in Basics} :
                 Shape([ctype |-> y[1], body |-> y[2], spelling |-> sp, method |-> m])} |->
         LET q == [method |-> m, ctype |-> x[1], body |-> x[2], cookie |-> x[3], basic |-> x[4],
                   spelling |-> sp]
         IN {<<x[1], x[2], CookieLabel(x[3]), x[4],
-              (IF o.e.disp = "none" THEN "none" ELSE IF o.e.norm THEN "redirect" ELSE o.e.pat),
-              o.by.site, o.outs, Bad(q, o)>> :
+              (IF o.e.disp = "none" THEN "none" ELSE IF o.e.norm THEN "redirect"
+               ELSE IF o.e.pat = r.pat THEN "$self" ELSE o.e.pat),
+              (IF o.by = r THEN "$self" ELSE o.by.site), o.outs, Bad(q, o)>> :
                 o \in Outcomes(r, t, q)}]
 
 Emit(r, t, m, sp) ==
     LET tab == Table(r, t, m, sp) IN
     PrintT(<<"@@V", ToJson([firstRun |-> firstRun, hasUser |-> users # {},
-                            pat |-> r.pat, site |-> r.site, reg |-> r.reg, decl |-> r.method,
+                            members |-> {<<x.pat, x.site>> : x \in Members(r)},
+                            reg |-> r.reg, decl |-> r.method,
                             chain |-> r.chain,
                             sub |-> t.sub, method |-> m, spelling |-> sp,
                             rows |-> UNION {tab[x] : x \in DOMAIN tab}])>>)
@@ -366,7 +380,7 @@ Skeleton == \/ FinishInstall
             \/ \E t \in Tokens : Login(t) \/ Logout(t)
             \/ Tick
             \/ Restart
-            \/ \E r \in Routes : Focus(r)
+            \/ \E r \in (IF DoEmit THEN Reps ELSE Routes) : Focus(r)
 
 Next == /\ last = None
         /\ \/ (focus = None /\ Skeleton)
